@@ -647,7 +647,7 @@ class Expr:
 		if len(whole) == 1 and len(ds) == 1 and name is None:
 			d = whole[0]
 			return self.of_rvalue(d[3], depth + 1)
-		if len(whole) == 1 and len(ds) == 1 and name is not None and (l not in fu.mut_borrowed or name == '__awaitee'):
+		if len(whole) == 1 and len(ds) == 1 and name is not None and (l not in fu.mut_borrowed or name in ('__awaitee', 'iter')):
 			# a user variable assigned exactly once (let x = ...) and never mutably borrowed: transparent too
 			d = whole[0]
 			return self.of_rvalue(d[3], depth + 1)
